@@ -29,6 +29,12 @@ type c08Input struct {
 	Depth        int        `json:"depth"`
 	Rounds       []c08Round `json:"rounds"`
 	TablesFirst  bool       `json:"tablesFirst"` // the sender asks for TablesToSend before CommitsToSend
+	// RefNames, when given, names the refs (parallel to Refs): heads, tags, remote-tracking refs,
+	// transaction refs (txs/<id>/<branch>) and custom namespaces. Absent: heads/b<i>.
+	RefNames []string `json:"refNames,omitempty"`
+	// Retry: the session goes on with the same finder after a refused request (the refused round is
+	// reported in "refused", the later rounds are processed as usual)
+	Retry bool `json:"retry,omitempty"`
 }
 
 // BuildGraphWithTables is BuildGraph plus a dummy table object for every commit whose table is
@@ -76,7 +82,11 @@ func c08Run(in *c08Input) Res {
 		rs, closeRS := NewRefStore()
 		defer closeRS()
 		for i, r := range in.Refs {
-			if err := rs.Set(fmt.Sprintf("heads/b%d", i), bg.Sums[r]); err != nil {
+			name := fmt.Sprintf("heads/b%d", i)
+			if i < len(in.RefNames) {
+				name = in.RefNames[i]
+			}
+			if err := rs.Set(name, bg.Sums[r]); err != nil {
 				return Err("setref")
 			}
 		}
@@ -86,11 +96,18 @@ func c08Run(in *c08Input) Res {
 		}
 		f := apiutils.NewClosedSetsFinder(bg.DB, rs, in.Depth)
 		acks := [][]int{}
-		for _, rd := range in.Rounds {
+		refused := []int{}
+		for k, rd := range in.Rounds {
 			a, err := f.Process(sumsOf(bg, rd.Wants), sumsOf(bg, rd.Haves), rd.Done)
 			if err != nil {
 				var uw *apiutils.UnrecognizedWantsError
 				if errors.As(err, &uw) {
+					if in.Retry {
+						// the request is refused; the session continues on the same finder
+						refused = append(refused, k)
+						acks = append(acks, []int{})
+						continue
+					}
 					return Err("unrecognized-wants")
 				}
 				return Err("process")
@@ -140,7 +157,7 @@ func c08Run(in *c08Input) Res {
 			commons = append(commons, bg.IDs[string(s)])
 		}
 		sort.Ints(commons)
-		return Ok(map[string]interface{}{"acks": acks, "sent": sent, "tables": tnums, "commons": commons})
+		return Ok(map[string]interface{}{"acks": acks, "sent": sent, "tables": tnums, "commons": commons, "refused": refused})
 	})
 }
 
@@ -237,8 +254,167 @@ func genC08(r *rand.Rand, thorough bool) (*c08Input, []string) {
 	return in, tags
 }
 
+// c08RefNamespaces: where a ref can live. Negotiation starts from every ref of the repository,
+// whatever its namespace.
+var c08RefNamespaces = []string{
+	"heads/b%d",
+	"tags/v%d",
+	"remotes/origin/b%d",
+	"txs/0b5c1f2e-7a44-4c1d-9e0a-3d1f6b2a9c%02d/main",
+	"custom/x%d",
+	"txs/6e2d9a10-11f3-4b7e-8c55-0a9b7c3d2e01/b%d",
+	"remotes/up/b%d",
+	"heads/feature/b%d",
+}
+
+// c08ReachableFrom: ids reachable from the given commits along parent links.
+func c08ReachableFrom(g []GCommit, from []int) map[int]bool {
+	byID := map[int]GCommit{}
+	for _, c := range g {
+		byID[c.ID] = c
+	}
+	seen := map[int]bool{}
+	var walk func(int)
+	walk = func(id int) {
+		if _, ok := byID[id]; !ok || seen[id] {
+			return
+		}
+		seen[id] = true
+		for _, p := range byID[id].Parents {
+			walk(p)
+		}
+	}
+	for _, f := range from {
+		walk(f)
+	}
+	return seen
+}
+
+// c08Vary turns a generated scenario into one of the kinds chosen by the case index (the draws of
+// genC08 are untouched, so the other cases stay what they were):
+//
+//	idx%4 == 1  the refs live in namespaces other than heads/ (tags, remote-tracking, transaction
+//	            refs txs/<id>/<branch>, custom), rotating so that every ref position meets every namespace
+//	idx%5 == 2  a session that goes on after a refused request: a round whose wants include a commit
+//	            no ref reaches (dangling in the store), a hash the store has never seen, or a commit
+//	            whose table is absent is placed before, between or after the generated rounds
+func c08Vary(in *c08Input, seed int64, idx int, tags []string) []string {
+	if len(tags) > 0 && tags[0] == "diamond-chain" {
+		return tags
+	}
+	if idx%4 == 1 {
+		tx := false
+		for i := range in.Refs {
+			ns := c08RefNamespaces[(idx/4+i)%len(c08RefNamespaces)]
+			in.RefNames = append(in.RefNames, fmt.Sprintf(ns, i))
+			tx = tx || ns[:4] == "txs/"
+		}
+		tags = append(tags, "ref-namespaces")
+		if tx {
+			tags = append(tags, "tx-ref")
+			// a want that only transaction refs reach
+			var other []int
+			for i, r := range in.Refs {
+				if in.RefNames[i][:4] != "txs/" {
+					other = append(other, r)
+				}
+			}
+			all, rest := c08ReachableFrom(in.Graph, in.Refs), c08ReachableFrom(in.Graph, other)
+			for _, rd := range in.Rounds {
+				for _, w := range rd.Wants {
+					if all[w] && !rest[w] {
+						tags = append(tags, "want-only-under-tx-ref")
+						return c08VaryRetry(in, seed, idx, tags)
+					}
+				}
+			}
+		}
+	}
+	return c08VaryRetry(in, seed, idx, tags)
+}
+
+func c08VaryRetry(in *c08Input, seed int64, idx int, tags []string) []string {
+	if idx%5 != 2 {
+		return tags
+	}
+	xr := rand.New(rand.NewSource((seed*1000003 + int64(idx)) ^ 0x7265747279))
+	n := len(in.Graph)
+	reach := c08ReachableFrom(in.Graph, in.Refs)
+	var dangling []int
+	for _, c := range in.Graph {
+		if !reach[c.ID] {
+			dangling = append(dangling, c.ID)
+		}
+	}
+	if len(dangling) == 0 || xr.Intn(2) == 0 {
+		// commits no ref reaches: a deleted branch not yet pruned, a discarded transaction, the
+		// leftovers of an aborted push. One or two commits, on top of the history or on their own.
+		k := 1 + xr.Intn(2)
+		for i := 0; i < k; i++ {
+			id := n + 1 + i
+			c := GCommit{ID: id, Time: int64(1000 + 10*id), Table: id}
+			if i > 0 {
+				c.Parents = []int{id - 1}
+			} else if xr.Intn(3) != 0 {
+				c.Parents = []int{1 + xr.Intn(n)}
+			}
+			in.Graph = append(in.Graph, c)
+			dangling = append(dangling, id)
+		}
+	}
+	var bad int
+	kind := "dangling"
+	switch xr.Intn(6) {
+	case 0:
+		bad = len(in.Graph) + 10 + xr.Intn(3) // a hash the store does not hold
+		kind = "unknown"
+	case 1:
+		// a reachable commit whose table object is absent (shallow): refused as well
+		bad = in.Refs[xr.Intn(len(in.Refs))]
+		miss := false
+		var tbl int
+		for _, c := range in.Graph {
+			if c.ID == bad {
+				tbl = c.Table
+			}
+		}
+		for _, m := range in.TableMissing {
+			miss = miss || m == tbl
+		}
+		if !miss {
+			in.TableMissing = append(in.TableMissing, tbl)
+		}
+		kind = "shallow"
+	default:
+		bad = dangling[xr.Intn(len(dangling))]
+	}
+	rd := c08Round{Wants: []int{bad}, Haves: []int{}}
+	if xr.Intn(3) == 0 {
+		// together with a legitimate want: the request is refused as a whole
+		good := in.Refs[xr.Intn(len(in.Refs))]
+		if xr.Intn(2) == 0 {
+			rd.Wants = []int{good, bad}
+		} else {
+			rd.Wants = []int{bad, good}
+		}
+	}
+	for i := 0; i < xr.Intn(3); i++ {
+		rd.Haves = append(rd.Haves, 1+xr.Intn(n))
+	}
+	pos := xr.Intn(len(in.Rounds) + 1)
+	if pos == len(in.Rounds) && len(in.Rounds) > 0 && in.Rounds[len(in.Rounds)-1].Done {
+		pos = 0 // nothing follows a round that carried the done flag
+	}
+	rounds := append([]c08Round{}, in.Rounds[:pos]...)
+	rounds = append(rounds, rd)
+	in.Rounds = append(rounds, in.Rounds[pos:]...)
+	in.Retry = true
+	return append(tags, "retry-after-refusal", "refused-want-"+kind)
+}
+
 func runC08(ctx *Ctx) {
 	in, tags := genC08(ctx.R, ctx.Thorough())
+	tags = c08Vary(in, ctx.Seed, ctx.Idx, tags)
 	ctx.Emit("negotiate", in, c08Run(in), graphNontrivial(in.Graph), tags...)
 }
 
